@@ -409,6 +409,9 @@ func (el *eventloop) closeConn(c *conn, err error, closeType ConnCloseType) (rer
 }
 
 func (el *eventloop) ticker() {
+	if verifHoldTicker(el) {
+		return
+	}
 	now := time.Now()
 	for now.Before(el.nextTicker) {
 		return
